@@ -38,6 +38,9 @@ ASSUMPTIONS = [
 ]
 
 ALPHA = ["", "a", "0", "1", "10", "01", "-1", "+1", " 1", "1_0", "~", "/", "~0", "~1", "~01", "#", "-", "é", "😀", " "]
+# integer tokens at and just inside the documented index limits (tokens beyond them are a documented refusal, not generated)
+BOUNDARY = ["9007199254740991", "-9007199254740991", "9007199254740990", "-9007199254740990", "1000000000000000", "-1000000000000000",
+            "999999999999999", "-999999999999999", "4294967296", "-4294967296", "2147483648"]
 
 
 def delicate(toks):
@@ -124,10 +127,10 @@ def laws(stats: Stats, toks, rng, origin):
     except Exception as e:  # noqa: BLE001
         stats.fail("resolve:raised:%s" % type(e).__name__, case, "%r on %s: %s" % (text, short(doc, 200), e))
     # L4: join a further token
-    for t in ALPHA:
+    for t in ALPHA + BOUNDARY:
         if t != t.lstrip():
             continue
-        if rng.random() > 0.35:
+        if rng.random() > (0.35 if t in ALPHA else 0.1):
             continue
         e = P.escape(t)
         stats.ev()
@@ -180,6 +183,13 @@ def t_exhaustive(shard, nshards, maxlen=3):
         n += 1
         if delicate(toks):
             stats.nt("x", repr(toks))
+    if shard == 0:
+        for b in BOUNDARY:
+            for pre in ((), ("a",), ("0", "~")):
+                laws(stats, list(pre) + [b], rng, "boundary")
+                laws(stats, [b] + list(pre), rng, "boundary")
+                n += 2
+                stats.nt("boundary", b, repr(pre))
     # inequality: different token sequences must give unequal pointers (pairs differing in one token)
     for a, b in itertools.combinations(ALPHA, 2):
         if (ALPHA.index(a) + ALPHA.index(b)) % nshards != shard:
@@ -202,7 +212,8 @@ def t_exhaustive(shard, nshards, maxlen=3):
 
 def t_random(seed, n):
     stats = Stats()
-    tok = st.one_of(st.sampled_from(ALPHA), st.text(alphabet=st.characters(codec="utf-8", exclude_categories=["Cs"], exclude_characters="\\"), max_size=5))
+    tok = st.one_of(st.sampled_from(ALPHA), st.sampled_from(ALPHA + BOUNDARY),
+                    st.text(alphabet=st.characters(codec="utf-8", exclude_categories=["Cs"], exclude_characters="\\"), max_size=5))
 
     def body(x):
         toks, s = x
